@@ -225,6 +225,14 @@ func (c *SimConn) Read(b []byte) (int, error) {
 	}
 }
 
+// Ready reports whether a Read would return data right now.
+func (c *SimConn) Ready() bool {
+	h := c.rd
+	h.mu.Lock()
+	defer h.mu.Unlock()
+	return len(h.q) > 0 && h.q[0].at <= time.Now().UnixNano()
+}
+
 // ensureWaker makes sure a goroutine will broadcast at or before target.
 // Called with h.mu held, by the reader.
 func (h *pipeHalf) ensureWaker(now, target int64) {
